@@ -653,12 +653,17 @@ pub fn cmd_drive(args: &[String]) -> i32 {
         let mut sys = Sys::new();
         let mut world: Vec<ItemSpec> = Vec::new();
         // per-run fault profile
-        let p_loss = [0.0, 0.05, 0.2, 0.4][rng.gen_range(0..4)];
+        let mut p_loss = [0.0, 0.05, 0.2, 0.4][rng.gen_range(0..4)];
         let p_dup = [0.0, 0.05, 0.2][rng.gen_range(0..3)];
         let p_reorder = [0.0, 0.2, 0.6][rng.gen_range(0..3)];
-        let p_ack = [0.1, 0.5, 1.0][rng.gen_range(0..3)];
+        let mut p_ack = [0.1, 0.5, 1.0][rng.gen_range(0..3)];
         // a phase without any acknowledgement reaching the sender: the receiver's cap (100) evicts the base
-        let blackout = if rng.gen_range(0..3) == 0 && ticks > 130 { Some(rng.gen_range(5..ticks - 120)) } else { None };
+        // (always in the first run, which acknowledges reliably before the phase starts)
+        let blackout = if (run_no == 1 || rng.gen_range(0..3) == 0) && ticks > 130 { Some(rng.gen_range(5..ticks - 120)) } else { None };
+        if run_no == 1 && blackout.is_some() {
+            p_loss = 0.05;
+            p_ack = 1.0;
+        }
         let worlds: Vec<Vec<ItemSpec>> = Vec::new();
         let mut stored_estimate = 0usize;
         let emit = |ev: Value, out: &mut std::io::BufWriter<std::fs::File>| {
@@ -678,9 +683,10 @@ pub fn cmd_drive(args: &[String]) -> i32 {
             let in_blackout = blackout.map(|b| tk >= b && tk < b + 115).unwrap_or(false);
             // network activity until the queues are short
             let mut guard = 0;
-            while (sys.msgs.len() > 3 || (!sys.msgs.is_empty() && rng.gen_bool(0.8))) && guard < 200 {
+            while (sys.msgs.len() > 3 || (!sys.msgs.is_empty() && (in_blackout || rng.gen_bool(0.8)))) && guard < 200 {
                 guard += 1;
-                let i = if rng.gen_bool(p_reorder) { rng.gen_range(1..=sys.msgs.len()) } else { 1 };
+                // during the black-out everything arrives, in order: more than 100 snapshots are accepted on one base
+                let i = if !in_blackout && rng.gen_bool(p_reorder) { rng.gen_range(1..=sys.msgs.len()) } else { 1 };
                 let step = if !in_blackout && rng.gen_bool(p_loss) {
                     json!({"a": "drop_msg", "i": i})
                 } else {
